@@ -193,7 +193,11 @@ func (i *Iterator) Next(ctx context.Context, span telem.TimeSpan) (ok bool) {
 
 	i.reset(i.view.End.SpanRange(span).BoundBy(i.bounds))
 
-	if i.view.Span().IsZero() || i.view.End.BeforeEq(i.internal.TimeRange().Start) {
+	// Reposition the domain iterator on the first domain that can hold data of the
+	// view: earlier steps may have left it on another domain or exhausted it.
+	if i.view.Span().IsZero() ||
+		!i.internal.SeekGE(ctx, i.view.Start) ||
+		i.view.End.BeforeEq(i.internal.TimeRange().Start) {
 		return
 	}
 
@@ -357,7 +361,11 @@ func (i *Iterator) Prev(ctx context.Context, span telem.TimeSpan) (ok bool) {
 
 	i.reset(i.view.Start.SpanRange(-1 * span).BoundBy(i.bounds))
 
-	if i.view.Span().IsZero() || i.view.Start.AfterEq(i.internal.TimeRange().End) {
+	// Reposition the domain iterator on the last domain that can hold data of the
+	// view: earlier steps may have left it on another domain or exhausted it.
+	if i.view.Span().IsZero() ||
+		!i.internal.SeekLE(ctx, i.view.End-1) ||
+		i.view.Start.AfterEq(i.internal.TimeRange().End) {
 		return
 	}
 
